@@ -50,6 +50,322 @@ static void hostile_fingerprint(void)
   }
 }
 
+
+/* ------------------------------------------------------------------ C10: sockets profile + k-th call fault enumeration */
+static void fd_fingerprint(void)
+{
+  int nsock = sim_next_fd - SIM_FD_BASE;
+  int nt    = (nsock >= 2) || sim_faults_fired > 0;
+  if (sim_ntx == 0 && sim_faults_fired == 0) {
+    nt = 0;
+  }
+  case_nontrivial = nt;
+  if (nt) {
+    uint64_t h = vh_fnv(VH_FNV_INIT, sim_fd_shape, sizeof(sim_fd_shape));
+    vh_count("nontrivial_cases");
+    vh_fp_add(h);
+  }
+}
+
+static void gen_sockets(vh_rng_t *rng)
+{
+  gen_profile_flags = GP_SIMPLE_NAMES | GP_NO_CANCEL_IN_CB | GP_NO_WEIRD_TYPES;
+  gen_hostile(rng);
+  if (vh_chance(rng, 1, 2)) {
+    app_cfg.flags |= ARES_FLAG_STAYOPEN;
+  }
+  if (vh_chance(rng, 1, 3)) {
+    app_cfg.flags |= ARES_FLAG_USEVC;
+  }
+  sim_cfg.tfo_supported = vh_chance(rng, 1, 2);
+  if (vh_chance(rng, 1, 2)) {
+    app_cfg.udp_max_queries = vh_range(rng, 1, 2);
+  }
+  sim_rand_fault_permille = vh_chance(rng, 1, 2) ? vh_range(rng, 5, 80) : 0;
+}
+
+#define FE_MAXK 160
+static const int fe_errs[] = { ECONNREFUSED, EWOULDBLOCK, EIO, EINTR, ENOSYS };
+#define FE_NERR ((int)(sizeof(fe_errs) / sizeof(fe_errs[0])))
+#define FE_SLOTS (FE_MAXK * FE_NERR)
+#define FE_KINDS 12
+
+static void gen_scenario(int scn)
+{
+  int      kind    = scn % FE_KINDS;
+  int      variant = scn / FE_KINDS;
+  vh_rng_t vr;
+  int      i, ti;
+  vh_rng_seed(&vr, 0xfa17u + (uint64_t)variant * 7919u);
+  gen_profile_flags = GP_SIMPLE_NAMES | GP_NO_CANCEL_IN_CB | GP_NO_REENTRANT | GP_NO_WEIRD_TYPES;
+  gen_default_simcfg(&vr, 0);
+  gen_default_appcfg(&vr);
+  gen_srv_base(3);
+  for (i = 0; i < sim_nsrv; i++) {
+    sim_srv[i].delay_min_ms = 2;
+    sim_srv[i].delay_max_ms = 2;
+    sim_srv[i].ck_mode      = 1;
+    memset(sim_srv[i].ck_secret, 0x51 + i, 8);
+  }
+  app_cfg.nsrv_cfg   = 2;
+  app_cfg.srv_cfg[0] = 0;
+  app_cfg.srv_cfg[1] = 2;
+  app_cfg.timeout_ms = 300;
+  app_cfg.tries      = 2;
+  app_cfg.use_server_state_cb = 1;
+  app_sched.max_steps     = 5000;
+  app_sched.idle_ms_after = 20;
+  if (variant > 0) {
+    /* variants: polling mechanism, socket-function flags, connect behaviour, v6 servers */
+    sim_cfg.legacy_poll          = (int)vh_below(&vr, 3);
+    sim_cfg.nonblocking_flag     = vh_chance(&vr, 3, 4);
+    sim_cfg.use_pending_write_cb = vh_chance(&vr, 1, 3);
+    sim_cfg.use_sock_cfg_cb      = vh_chance(&vr, 1, 2);
+    sim_cfg.use_sock_create_cb   = vh_chance(&vr, 1, 2);
+    sim_cfg.have_getsockname     = vh_chance(&vr, 4, 5);
+    sim_cfg.tcp_seg_mode         = (int)vh_below(&vr, 3);
+    sim_cfg.tcp_write_mode       = (int)vh_below(&vr, 3);
+    sim_cfg.one_fd_per_call      = vh_chance(&vr, 1, 4);
+    if (vh_chance(&vr, 1, 2)) {
+      app_cfg.srv_cfg[0] = 1; /* v6 */
+    }
+    for (i = 0; i < sim_nsrv; i++) {
+      sim_srv[i].tcp_connect          = (int)vh_below(&vr, 2);
+      sim_srv[i].tcp_connect_delay_ms = (int)vh_below(&vr, 5);
+    }
+    if (vh_chance(&vr, 1, 3)) {
+      app_cfg.flags |= ARES_FLAG_STAYOPEN;
+    }
+    if (vh_chance(&vr, 1, 3)) {
+      app_cfg.flags |= ARES_FLAG_DNS0x20;
+    }
+    app_sched.timeouts_first_pm = vh_chance(&vr, 1, 3) ? 300 : 0;
+  }
+#define SCN_TOK(k, nm, ty, t0)                                      do {                                                                ti = gen_add_token(&vr, (t0));                                    app_tok[ti].kind   = (k);                                         app_tok[ti].qtype  = (ty);                                        app_tok[ti].qclass = 1;                                           app_tok[ti].action = RA_NONE;                                     snprintf(app_tok[ti].name, sizeof(app_tok[ti].name), "%s", (nm));   } while (0)
+  switch (kind) {
+    case 0: /* UDP query answered */
+      SCN_TOK(RK_QUERY_DNSREC, "a0.example.com", 1, 0);
+      break;
+    case 1: /* first server silent -> retry on second */
+      memset(sim_srv[app_cfg.srv_cfg[0]].w_udp, 0, sizeof(sim_srv[0].w_udp));
+      sim_srv[app_cfg.srv_cfg[0]].w_udp[SA_SILENT] = 1;
+      SCN_TOK(RK_QUERY, "a1.example.com", 1, 0);
+      break;
+    case 2: /* truncation -> TCP */
+      memset(sim_srv[app_cfg.srv_cfg[0]].w_udp, 0, sizeof(sim_srv[0].w_udp));
+      sim_srv[app_cfg.srv_cfg[0]].w_udp[SA_TC] = 1;
+      SCN_TOK(RK_SEND_DNSREC, "a2.example.com", 16, 0);
+      break;
+    case 3: /* TCP only */
+      app_cfg.flags |= ARES_FLAG_USEVC;
+      SCN_TOK(RK_QUERY_DNSREC, "a3.example.com", 1, 0);
+      SCN_TOK(RK_QUERY_DNSREC, "b3.example.com", 28, 0);
+      break;
+    case 4: /* TCP fast open */
+      app_cfg.flags |= ARES_FLAG_USEVC;
+      sim_cfg.tfo_supported = 1;
+      SCN_TOK(RK_QUERY_DNSREC, "a4.example.com", 1, 0);
+      SCN_TOK(RK_QUERY_DNSREC, "b4.example.com", 1, 1000);
+      break;
+    case 5: /* stay-open reuse */
+      app_cfg.flags |= ARES_FLAG_STAYOPEN;
+      SCN_TOK(RK_QUERY, "a5.example.com", 1, 0);
+      SCN_TOK(RK_QUERY, "b5.example.com", 1, 50000);
+      break;
+    case 6: /* per-socket query limit */
+      app_cfg.udp_max_queries = 1;
+      SCN_TOK(RK_QUERY, "a6.example.com", 1, 0);
+      SCN_TOK(RK_QUERY, "b6.example.com", 1, 0);
+      SCN_TOK(RK_QUERY, "c6.example.com", 1, 0);
+      break;
+    case 7: /* getaddrinfo both families with sorting (probe sockets) */
+      sim_srv[app_cfg.srv_cfg[0]].default_nrec = 3;
+      SCN_TOK(RK_GETADDRINFO, "a7.example.com", 1, 0);
+      app_tok[ti].family   = AF_UNSPEC;
+      app_tok[ti].ai_flags = 0;
+      break;
+    case 8: /* cancel mid-flight */
+      sim_srv[app_cfg.srv_cfg[0]].delay_min_ms = sim_srv[app_cfg.srv_cfg[0]].delay_max_ms = 50;
+      SCN_TOK(RK_QUERY, "a8.example.com", 1, 0);
+      SCN_TOK(RK_GETHOSTBYNAME, "b8.example.com", 1, 0);
+      app_tok[ti].family = AF_INET;
+      gen_add_action(10000, AA_CANCEL, 0, 0);
+      break;
+    case 9: /* server list change mid-flight */
+      sim_srv[app_cfg.srv_cfg[0]].delay_min_ms = sim_srv[app_cfg.srv_cfg[0]].delay_max_ms = 50;
+      SCN_TOK(RK_QUERY, "a9.example.com", 1, 0);
+      gen_add_action(10000, AA_SET_SERVERS, 0, 0);
+      SCN_TOK(RK_QUERY, "b9.example.com", 1, 20000);
+      break;
+    case 10: /* search, first candidate NXDOMAIN */
+      app_cfg.ndomains = 1;
+      snprintf(app_cfg.domains[0], sizeof(app_cfg.domains[0]), "sub.test");
+      app_cfg.ndots = 2;
+      {
+        sim_rule_t *r = &sim_srv[app_cfg.srv_cfg[0]].rules[0];
+        memset(r, 0, sizeof(*r));
+        snprintf(r->name, sizeof(r->name), "a10.sub.test");
+        r->action = SA_NXDOMAIN;
+        r->ttl    = 60;
+        sim_srv[app_cfg.srv_cfg[0]].nrules = 1;
+      }
+      SCN_TOK(RK_SEARCH, "a10", 1, 0);
+      break;
+    default: /* 11: TCP reset then retry */
+      app_cfg.flags |= ARES_FLAG_USEVC;
+      memset(sim_srv[app_cfg.srv_cfg[0]].w_tcp, 0, sizeof(sim_srv[0].w_tcp));
+      sim_srv[app_cfg.srv_cfg[0]].w_tcp[SA_RESET] = 1;
+      SCN_TOK(RK_QUERY_DNSREC, "a11.example.com", 1, 0);
+      break;
+  }
+#undef SCN_TOK
+}
+
+static void run_faultenum(uint64_t idx)
+{
+  int scn = (int)(idx / FE_SLOTS);
+  int rem = (int)(idx % FE_SLOTS);
+  int k   = rem / FE_NERR + 1;
+  int e   = fe_errs[rem % FE_NERR];
+  gen_scenario(scn);
+  sim_nfaults         = 1;
+  sim_faults[0].kind  = 0;
+  sim_faults[0].nth   = -k; /* the k-th socket-layer call of any kind */
+  sim_faults[0].err   = e;
+  sim_faults[0].fired = 0;
+  run_generic(NULL);
+  if (sim_faults_fired == 0) {
+    /* beyond the last call of this scenario: the enumeration for it is complete */
+    vh_count("faultenum_beyond_last_call");
+    if (k == FE_MAXK) {
+      vh_count("faultenum_scenario_complete");
+    }
+    case_nontrivial = 0;
+    return;
+  }
+  vh_count("faultenum_fired");
+  fd_fingerprint();
+}
+
+
+/* ------------------------------------------------------------------ C06/C07: retry profile */
+static void gen_retry(vh_rng_t *rng)
+{
+  int i, n, r;
+  gen_profile_flags = GP_ONLY_WIRE | GP_SIMPLE_NAMES | GP_NO_REENTRANT | GP_NO_CANCEL_IN_CB | GP_NO_WEIRD_TYPES;
+  gen_default_simcfg(rng, 1);
+  gen_default_appcfg(rng);
+  gen_srv_base(4);
+  for (i = 0; i < sim_nsrv; i++) {
+    static const int moods[] = { MOOD_SILENT, MOOD_SILENT, MOOD_ERR, MOOD_FLAKY, MOOD_RESET, MOOD_TC, MOOD_FORMERR, MOOD_GOOD, MOOD_NEG, MOOD_BADCOOKIE };
+    vsrv_t          *s       = &sim_srv[i];
+    gen_srv_mood(s, moods[vh_below(rng, sizeof(moods) / sizeof(int))], rng);
+    s->tcp_connect          = vh_chance(rng, 6, 10) ? (int)vh_below(rng, 2) : 2 + (int)vh_below(rng, 3);
+    s->tcp_connect_delay_ms = (int)vh_below(rng, 40);
+    s->delay_max_ms         = (int)vh_below(rng, 30);
+    if (s->w_udp[SA_BADCOOKIE] < 50) {
+      s->ck_mode = (int)vh_below(rng, 3);
+    }
+    memset(s->ck_secret, 0x60 + i, 8);
+  }
+  app_cfg.flags = 0;
+  if (vh_chance(rng, 7, 10)) {
+    app_cfg.flags |= ARES_FLAG_EDNS;
+  }
+  if (vh_chance(rng, 1, 6)) {
+    app_cfg.flags |= ARES_FLAG_USEVC;
+  }
+  if (vh_chance(rng, 1, 6)) {
+    app_cfg.flags |= ARES_FLAG_IGNTC;
+  }
+  if (vh_chance(rng, 1, 4)) {
+    app_cfg.flags |= ARES_FLAG_STAYOPEN;
+  }
+  if (vh_chance(rng, 1, 5)) {
+    app_cfg.flags |= ARES_FLAG_NOCHECKRESP;
+  }
+  if (vh_chance(rng, 1, 4)) {
+    app_cfg.flags |= ARES_FLAG_DNS0x20;
+  }
+  r = (int)vh_below(rng, 100);
+  app_cfg.tries = r < 55 ? vh_range(rng, 1, 4) : r < 80 ? vh_range(rng, 5, 20) : vh_range(rng, 21, 100);
+  r = (int)vh_below(rng, 100);
+  app_cfg.timeout_ms = r < 20 ? vh_range(rng, 1, 249) : r < 80 ? vh_range(rng, 250, 2000) : vh_range(rng, 2001, 10000);
+  r = (int)vh_below(rng, 100);
+  app_cfg.maxtimeout_ms   = r < 40 ? 0 : r < 60 ? vh_range(rng, 1, 300) : r < 85 ? vh_range(rng, 300, 5000) : vh_range(rng, 5000, 100000);
+  app_cfg.rotate          = vh_chance(rng, 1, 3);
+  app_cfg.udp_max_queries = vh_chance(rng, 1, 3) ? vh_range(rng, 1, 3) : 0;
+  app_cfg.nsrv_cfg        = vh_range(rng, 1, 4);
+  {
+    int used[SIM_MAXSRV] = { 0 };
+    n                    = 0;
+    while (n < app_cfg.nsrv_cfg) {
+      int sidx = (int)vh_below(rng, (uint32_t)sim_nsrv);
+      if (!used[sidx]) {
+        used[sidx]           = 1;
+        app_cfg.srv_cfg[n++] = sidx;
+      }
+    }
+  }
+  app_cfg.use_server_state_cb = 1;
+  if (vh_chance(rng, 1, 3)) {
+    app_cfg.failover_set      = 1;
+    app_cfg.failover_chance   = vh_chance(rng, 1, 2) ? 0 : vh_range(rng, 1, 3);
+    app_cfg.failover_delay_ms = vh_range(rng, 0, 2000);
+  }
+  sim_nfaults = 0;
+  if (vh_chance(rng, 1, 3)) {
+    static const int errs[] = { ECONNREFUSED, ENETUNREACH, EIO, ECONNRESET, EHOSTUNREACH, EAFNOSUPPORT, EPIPE };
+    n                       = vh_range(rng, 1, 3);
+    for (i = 0; i < n; i++) {
+      sim_faults[sim_nfaults].kind  = (int)vh_below(rng, SF__COUNT);
+      sim_faults[sim_nfaults].nth   = vh_range(rng, 1, 12);
+      sim_faults[sim_nfaults].err   = errs[vh_below(rng, sizeof(errs) / sizeof(int))];
+      sim_faults[sim_nfaults].fired = 0;
+      sim_nfaults++;
+    }
+  }
+  sim_rand_fault_permille     = vh_chance(rng, 1, 5) ? 30 : 0;
+  app_sched.max_steps         = 300000;
+  app_sched.skip_chance_pm    = vh_chance(rng, 1, 4) ? 100 : 0;
+  app_sched.timeouts_first_pm = vh_chance(rng, 1, 3) ? 300 : 0;
+  app_sched.one_event_pm      = vh_chance(rng, 1, 3) ? 300 : 0;
+  app_sched.idle_ms_after     = 50;
+  n                           = vh_range(rng, 1, 3);
+  for (i = 0; i < n; i++) {
+    gen_add_token(rng, vh_chance(rng, 1, 2) ? 0 : (int64_t)vh_below(rng, 2000000));
+  }
+  if (vh_chance(rng, 1, 4)) {
+    gen_add_action((int64_t)vh_below(rng, 3000000), AA_SET_SERVERS, 0, 0);
+  }
+  if (vh_chance(rng, 1, 10)) {
+    gen_add_action((int64_t)vh_below(rng, 3000000), AA_CANCEL, 0, 0);
+  }
+}
+
+static void retry_fingerprint(void)
+{
+  /* non-trivial: some query was transmitted at least twice; distinct: outcome sequence x config class */
+  int      i, multi = 0;
+  uint64_t h = VH_FNV_INIT;
+  for (i = 0; i < net_nq; i++) {
+    if (net_q[i].ntx >= 2) {
+      multi = 1;
+    }
+  }
+  case_nontrivial = multi;
+  if (!multi) {
+    return;
+  }
+  for (i = 0; i < sim_ntx && i < 64; i++) {
+    h = vh_fnv_u64(h, (uint64_t)(sim_tx[i].action * 4 + sim_tx[i].tcp * 2 + sim_tx[i].has_opt));
+  }
+  h = vh_fnv_u64(h, (uint64_t)app_cfg.nsrv_cfg * 1000 + (uint64_t)(app_cfg.tries > 4 ? 5 : app_cfg.tries) * 10 +
+                      (uint64_t)(app_cfg.maxtimeout_ms ? 1 : 0));
+  vh_count("nontrivial_cases");
+  vh_fp_add(h);
+}
+
 static int profile_run(const char *profile, vh_rng_t *rng, uint64_t idx)
 {
   (void)idx;
@@ -60,6 +376,22 @@ static int profile_run(const char *profile, vh_rng_t *rng, uint64_t idx)
     gen_hostile(rng);
     run_generic(rng);
     hostile_fingerprint();
+    return 1;
+  }
+  if (!strcmp(profile, "retry")) {
+    gen_retry(rng);
+    run_generic(rng);
+    retry_fingerprint();
+    return 1;
+  }
+  if (!strcmp(profile, "sockets")) {
+    gen_sockets(rng);
+    run_generic(rng);
+    fd_fingerprint();
+    return 1;
+  }
+  if (!strcmp(profile, "faultenum")) {
+    run_faultenum(idx);
     return 1;
   }
   return 0;
